@@ -1000,7 +1000,8 @@ class Arm(Robot):
             grav = self.grav
         # Merged into link_mass_grav_centers
         link_mass_array = np.array([x.gTM() for x in self._link_mass_grav_centers])
-        tau = fmr.InverseDynamics(theta, theta_dot, theta_dot_dot, grav, end_effector_wrench,
+        tau = fmr.InverseDynamics(theta, theta_dot, theta_dot_dot, grav,
+            self._helper_wrench_vector(end_effector_wrench),
             link_mass_array, self._box_spatial_links, self.screw_list)
         return tau
 
@@ -1196,7 +1197,7 @@ class Arm(Robot):
             theta_dot,
             tau,
             grav,
-            end_effector_wrench,
+            self._helper_wrench_vector(end_effector_wrench),
             link_mass_array,
             self._box_spatial_links,
             self.screw_list)
@@ -1462,6 +1463,20 @@ class Arm(Robot):
                 atol = 1e-9, rtol = 0):
             self._eef_to_last_joint = fsr.globalToLocal(
                     self._end_effector_home, self._joint_homes_global[-1])
+
+    def _helper_wrench_vector(self, end_effector_wrench) -> 'np.ndarray[float]':
+        """
+        Tip wrench as the flat 6 vector the Modern Robotics routines expect.
+
+        Args:
+            end_effector_wrench: Wrench, or array like of six values
+
+        Returns:
+            np.ndarray[float]: the six wrench components
+        """
+        if hasattr(end_effector_wrench, 'getData'):
+            end_effector_wrench = end_effector_wrench.getData()
+        return np.asarray(end_effector_wrench, dtype=float).reshape(6)
 
     def _helper_ensure_theta_not_none(self, theta : 'np.ndarray[float]') -> 'np.ndarray[float]':
         """
